@@ -71,7 +71,12 @@ int snoopy_cli_action_conf ()
     optionRegistry = snoopy_configfile_optionRegistry_getAll_ptr();
     for (int i=0 ; 0 != strcmp(optionRegistry[i].name, "") ; i++) {
         char * optionValue = snoopy_configfile_optionRegistry_getOptionValueAsString_ptr(optionRegistry[i].name);
-        printf("%s = %s\n", optionRegistry[i].name, optionValue);
+        if (optionRegistry[i].data.type == SNOOPY_CONFIGFILE_OPTION_TYPE_STRING) {
+            // Quoted, so that leading/trailing whitespace and quote characters survive being pasted into snoopy.ini
+            printf("%s = \"%s\"\n", optionRegistry[i].name, optionValue);
+        } else {
+            printf("%s = %s\n", optionRegistry[i].name, optionValue);
+        }
         free(optionValue);
     }
 
